@@ -144,17 +144,42 @@ def denote(items, parent=''):
     return out
 
 
+def is_self_closing(head):
+    """an element is self-closing when it is written with a trailing `/` or bears the name of an HTML
+    void element (its built-in snippet ends in `/`); a nameless element only by the trailing `/`"""
+    return bool(head.get('close')) or head.get('name') in VOID
+
+
+def lone_flags(items):
+    """one boolean per denoted element, in document order (same traversal as denote): true when the
+    element is self-closing and has neither children nor text -- the only elements that the `html`
+    self-closing style writes as a lone start tag `<br>`, which no parser can tell from an open tag"""
+    out = []
+    for it in items:
+        if it[0] == 'g':
+            out += lone_flags(it[2]) * (1 if it[1] is None else it[1])
+        else:
+            _, head, rep, children = it
+            one = [is_self_closing(head) and not children and head.get('text') is None] + lone_flags(children)
+            out += one * (1 if rep is None else rep)
+    return out
+
+
 # ----------------------------------------------------------------------------- independent tag parser
 class MarkupError(Exception):
     pass
 
 
-def parse_markup(s, void_without_slash=False):
+def parse_markup(s, void_without_slash=False, lone_tags=None):
     """-> forest of nodes [name, attrs, text, children]; attrs = list of [key, value|None]; text = the
     element's own character data with the markup removed.  Comments are skipped.  With
-    `void_without_slash` an open tag of an HTML void element (`<br>`) is a complete element."""
+    `void_without_slash` an open tag of an HTML void element (`<br>`) is a complete element.
+    `lone_tags` (a list of booleans, or None) is the other way to read slash-less markup: the k-th start
+    tag of the document (k counts every start tag, `<x>` and `<x/>`, in document order) is a complete
+    element when lone_tags[k] is true; a start tag beyond the list is read as an ordinary open tag."""
     root = ['', [], [], []]
     stack = [root]
+    nstart = 0
     i, n = 0, len(s)
     while i < n:
         lt = s.find('<', i)
@@ -237,7 +262,9 @@ def parse_markup(s, void_without_slash=False):
         else:
             node = [name, attrs, [], []]
             stack[-1][3].append(node)
-            if not selfclose and not (void_without_slash and name.lower() in VOID):
+            lone = lone_tags is not None and nstart < len(lone_tags) and lone_tags[nstart]
+            nstart += 1
+            if not selfclose and not lone and not (void_without_slash and name.lower() in VOID):
                 stack.append(node)
     if len(stack) != 1:
         raise MarkupError('unclosed <%s>' % stack[-1][0])
@@ -372,6 +399,114 @@ def decorate(skel, reps, variant, offset):
             out.append(['e', head, rep, items(ch)])
         return out
     return items(skel)
+
+
+# ----------------------------------------------------------------------------- self-closing parents
+VOID_NAMES = ['br', 'hr', 'img', 'input', 'link', 'meta', 'col', 'area', 'param', 'source', 'embed', 'base', 'basefont']
+assert set(VOID_NAMES) == VOID
+N_VOID_VARIANTS = 6
+
+
+def has_parent_element(skel):
+    return any((kind == 'e' and ch) or has_parent_element(ch) for kind, ch in skel)
+
+
+def decorate_void(skel, reps, variant, offset):
+    """skeleton + repeater placement + naming variant -> AST in which the elements that HAVE CHILDREN are
+    self-closing ones.  Elements are numbered j in document order; V = VOID_NAMES[(j + offset) % 13],
+    P = PALETTE[(j + offset) % 23], .cJ = a nameless element with the class cJ:
+      0  parents V, leaves P                       (div>br>span)
+      1  every element br / hr (alternating with j) and a class cJ that tells them apart
+                                                   (br.c0>hr.c1+br.c2: the same void name as parent and as leaf)
+      2  parents V, leaves nameless .cJ            (implicit name below a void element: span below the inline
+                                                    ones br img input basefont, div below the others)
+      3  parents P written with a trailing `/`, leaves alternately P / nameless
+      4  parents: V for even j, P for j = 1 mod 4, nameless .cJ with a trailing `/` for j = 3 mod 4;
+         leaves: V for even j, nameless .cJ for odd j
+      5  parents V with text `{t}`, leaves V written with a trailing `/` (br/)"""
+    counter = [0, 0]
+
+    def items(sk):
+        out = []
+        for kind, ch in sk:
+            idx = counter[0]
+            counter[0] += 1
+            rep = reps.get(idx)
+            if kind == 'g':
+                out.append(['g', rep, items(ch)])
+                continue
+            j = counter[1]
+            counter[1] += 1
+            V = VOID_NAMES[(j + offset) % len(VOID_NAMES)]
+            P = PALETTE[(j + offset) % len(PALETTE)]
+            C = ['c%d' % j]
+            if variant == 0:
+                head = {'name': V} if ch else {'name': P}
+            elif variant == 1:
+                head = {'name': ('br', 'hr')[(j + offset) % 2], 'cls': C}
+            elif variant == 2:
+                head = {'name': V} if ch else {'cls': C}
+            elif variant == 3:
+                head = {'name': P, 'close': True} if ch else ({'name': P} if j % 2 else {'cls': C})
+            elif variant == 4:
+                if ch:
+                    head = {'name': V} if j % 2 == 0 else ({'cls': C, 'close': True} if j % 4 == 3 else {'name': P})
+                else:
+                    head = {'name': V} if j % 2 == 0 else {'cls': C}
+            else:
+                head = {'name': V, 'text': 't'} if ch else {'name': V, 'close': True}
+            out.append(['e', head, rep, items(ch)])
+        return out
+    return items(skel)
+
+
+def void_parent_cases(spaces, variants=None):
+    """spaces: list of (n, gmax, rmax); yields (ast, 0) for every skeleton with exactly n elements of which
+    at least one has children, at most gmax groups, at most rmax repeaters (*2 / *3), in all six variants of
+    decorate_void (None) or in k of them rotating with the case index (int k)"""
+    idx = 0
+    for n, gmax, rmax in spaces:
+        for g in range(0, gmax + 1):
+            for skel in skeletons(n, g):
+                if not has_parent_element(skel):
+                    continue
+                m = count_nodes(skel)
+                for reps in rep_assignments(m, rmax, (2, 3)):
+                    idx += 1
+                    vs = range(N_VOID_VARIANTS) if variants is None else [(idx + v) % N_VOID_VARIANTS for v in range(variants)]
+                    for v in vs:
+                        yield (decorate_void(skel, reps, v, idx), 0)
+
+
+def count_void_parent(spaces, per_case):
+    total = 0
+    for n, gmax, rmax in spaces:
+        for g in range(0, gmax + 1):
+            for skel in skeletons(n, g):
+                if has_parent_element(skel):
+                    total += sum(1 for _ in rep_assignments(count_nodes(skel), rmax, (2, 3))) * per_case
+    return total
+
+
+def make_parents_self_closing(rng, items, void_p=0.5, close_p=0.2):
+    """in place: every element with children becomes a void-named one with probability void_p, else gets a
+    trailing `/` with probability close_p; -> number of elements changed"""
+    changed = 0
+    for it in items:
+        if it[0] == 'g':
+            changed += make_parents_self_closing(rng, it[2], void_p, close_p)
+            continue
+        head, children = it[1], it[3]
+        if children:
+            x = rng.random()
+            if x < void_p:
+                head['name'] = rng.choice(VOID_NAMES)
+                changed += 1
+            elif x < void_p + close_p:
+                head['close'] = True
+                changed += 1
+            changed += make_parents_self_closing(rng, children, void_p, close_p)
+    return changed
 
 
 def exhaustive_cases(spaces, variants=None):
